@@ -14,7 +14,7 @@
 //! [spec]: https://tc39.es/ecma262/multipage/ecmascript-language-expressions.html#sec-property-accessors
 //! [access]: https://developer.mozilla.org/en-US/docs/Web/JavaScript/Reference/Operators/Property_Accessors
 
-use crate::expression::Expression;
+use crate::expression::{Expression, literal::LiteralKind};
 use crate::function::PrivateName;
 use crate::visitor::{VisitWith, Visitor, VisitorMut};
 use crate::{Span, Spanned};
@@ -199,6 +199,15 @@ impl ToInternedString for SimplePropertyAccess {
         let target = self.target.to_interned_string(interner);
         match self.field {
             PropertyAccessField::Const(ident) => {
+                // `1.toString()` does not lex: the dot would belong to the numeric literal.
+                let target = match &*self.target {
+                    Expression::Literal(literal)
+                        if matches!(literal.kind(), LiteralKind::Num(_) | LiteralKind::Int(_)) =>
+                    {
+                        format!("({target})")
+                    }
+                    _ => target,
+                };
                 format!("{target}.{}", interner.resolve_expect(ident.sym()))
             }
             PropertyAccessField::Expr(ref expr) => {
